@@ -18,7 +18,7 @@ func init() {
 		}
 		cfg := &eng.BulkConfig{
 			Backends: []string{drv.BBolt, drv.Badger}, Sizes: sizes, Pads: []int{0},
-			IndexSets: [][]string{{}, {"x"}, {"x", "xy"}}, Ops: eng.BulkOps(),
+			IndexSets: [][]string{{}, {"x"}, {"x", "xy"}, {"n.a", "n"}}, Ops: eng.BulkOps(),
 		}
 		if tier == "thorough" {
 			cfg.Pads = []int{0, 300}
@@ -30,6 +30,10 @@ func init() {
 			eng.BulkSweep(&eng.BulkConfig{Backends: []string{drv.BBolt}, Sizes: sizes[:128], Pads: []int{300}, IndexSets: [][]string{{"x"}}, Ops: eng.BulkOps(), OneByOne: true}, run, tags)
 		} else {
 			eng.BulkSweep(&eng.BulkConfig{Backends: []string{drv.BBolt}, Sizes: []int{150, 300, 700}, Pads: []int{300}, IndexSets: [][]string{{"x", "xy"}}, Ops: eng.BulkOps()}, run, tags)
+			// sizes beyond typical batching thresholds (512, 1000, 1024, 2048) and values larger than a storage page / the badger value threshold
+			big := eng.BulkOpsNamed("delete-all", "delete-indexed-field", "update-unrelated-field", "update-rewrites-filter-field", "updatefunc-all-inplace", "updatefunc-remove", "drop-and-recreate", "create-index-on-existing", "drop-index-x")
+			eng.BulkSweep(&eng.BulkConfig{Backends: []string{drv.BBolt, drv.Badger}, Sizes: []int{513, 1025, 2100}, Pads: []int{0}, IndexSets: [][]string{{"x"}}, Ops: big}, run, tags)
+			eng.BulkSweep(&eng.BulkConfig{Backends: []string{drv.BBolt, drv.Badger}, Sizes: []int{3, 17, 40}, Pads: []int{5000}, IndexSets: [][]string{{}, {"x"}}, Ops: eng.BulkOps()}, run, tags)
 		}
 		// the full sort x skip x limit grid on a Fibonacci ladder of sizes
 		eng.BulkSweep(&eng.BulkConfig{Backends: []string{drv.BBolt, drv.Badger}, Sizes: []int{0, 1, 2, 3, 4, 5, 8, 13, 21, 34, 55}, Pads: []int{0}, IndexSets: [][]string{{}, {"x"}, {"y", "x"}}, Ops: eng.BulkWindowOps()}, run, tags)
